@@ -102,6 +102,9 @@ func TestC20(t *testing.T) {
 		{target: Target{Name: "Chrome_100_PSK", ID: tls.HelloChrome_100_PSK}, kind: "psk", scfg: mkServer(tls.VersionTLS13), hasExt: true},
 		{target: Target{Name: "Chrome_112_PSK_Shuf", ID: tls.HelloChrome_112_PSK_Shuf}, kind: "psk", scfg: mkServer(tls.VersionTLS13), hasExt: true},
 		{target: Target{Name: "Chrome_102(noPSKext)", ID: tls.HelloChrome_102}, kind: "psk", scfg: mkServer(tls.VersionTLS13), hasExt: false},
+		// the same specs applied by the caller (HelloCustom + ApplyPreset) before anything else
+		{target: Target{Name: "custom:Chrome_102", Spec: specOfID(tls.HelloChrome_102)}, kind: "ticket", scfg: mkServer(tls.VersionTLS12), hasExt: true},
+		{target: Target{Name: "custom:Chrome_100_PSK", Spec: specOfID(tls.HelloChrome_100_PSK)}, kind: "psk", scfg: mkServer(tls.VersionTLS13), hasExt: true},
 		{target: Target{Name: "Golang", ID: tls.HelloGolang}, kind: "ticket", scfg: mkServer(tls.VersionTLS12), hasExt: false},
 	}
 	// a parrot whose spec has no session_ticket extension
@@ -217,7 +220,17 @@ func TestC20(t *testing.T) {
 		if j.cache {
 			ccfg.ClientSessionCache = tls.NewLRUClientSessionCache(4)
 		}
-		u := tls.UClient(c, ccfg, e.target.ID)
+		u := tls.UClient(c, ccfg, e.target.ClientID())
+		if e.target.Spec != nil {
+			sp, err := e.target.Spec()
+			if err == nil {
+				err = u.ApplyPreset(sp)
+			}
+			if err != nil {
+				r.Inconclusive("cannot apply the preset of " + e.target.Name + ": " + err.Error())
+				return
+			}
+		}
 		var steps []string
 		var firstErr error
 		var panicMsg string
@@ -362,4 +375,11 @@ func TestC20(t *testing.T) {
 	r.Floor("allowed_histories", 20)
 	r.Floor("allowed_resumed", 20)
 	r.Floor("forbidden_histories", 100)
+}
+
+func specOfID(id tls.ClientHelloID) func() (*tls.ClientHelloSpec, error) {
+	return func() (*tls.ClientHelloSpec, error) {
+		sp, err := tls.UTLSIdToSpec(id)
+		return &sp, err
+	}
 }
